@@ -93,6 +93,9 @@ def setdefault (d : PyDict κ ν) (k : κ) (v : ν) : ν × PyDict κ ν :=
   | some v' => (v', d)
   | none => (v, d ++ [(k, v)])
 
+/-- `d.update(o)`: `d[k] = v` for every item of `o`, in order -/
+def update (d o : PyDict κ ν) : PyDict κ ν := o.foldl (fun acc e => set eq acc e.1 e.2) d
+
 /-- `list(d)` / iteration over `d` -/
 def keys (d : PyDict κ ν) : List κ := d.map Prod.fst
 /-- `d.values()` -/
@@ -151,7 +154,40 @@ def eraseFirst : List α → α → List α
 def remove (l : List α) (x : α) : Except PyExc (List α) :=
   if contains eq l x then .ok (eraseFirst eq l x) else .error .valueError
 
+/-- `l[0]` -/
+def first : List α → Except PyExc α
+  | [] => .error .indexError
+  | x :: _ => .ok x
+
+/-- `l[-1]` -/
+def last (l : List α) : Except PyExc α :=
+  match l.getLast? with
+  | some x => .ok x
+  | none => .error .indexError
+
+/-- `l[0] = v` on a non-empty list (the object at index 0 after it was changed in place) -/
+def setFirst : List α → α → List α
+  | [], _ => []
+  | _ :: r, v => v :: r
+
+/-- `l[-1] = v` on a non-empty list -/
+def setLast (l : List α) (v : α) : List α :=
+  match l with
+  | [] => []
+  | _ => l.dropLast ++ [v]
+
+/-- `deque.popleft()`: the element and the rest -/
+def popleft : List α → Except PyExc (α × List α)
+  | [] => .error .indexError
+  | x :: r => .ok (x, r)
+
 end PyList
+
+/-- a `while` loop is translated as a `for` over a spec-given bound with `break`; still wanting to iterate when the bound is
+used up is not a behaviour of the source but a wrong bound: the generated function raises (and no equation with a model proves) -/
+def pyFuel (stillTrue : Bool) : Except PyExc Unit := if stillTrue then .error .other else .ok ()
+
+@[simp] theorem pyFuel_false : pyFuel false = .ok () := rfl
 
 /-- `x or {}` / `x or []` for `x : Optional[container]`: `None` and the empty container both give the empty container -/
 def pyOrEmpty {α : Type} (x : Option (List α)) : List α :=
@@ -608,6 +644,30 @@ theorem firstM_pure (p : α → Bool) (l : List α) : firstM (fun x => .ok (p x)
     cases p x
     · exact ih
     · rfl
+
+/-- `while c: step`, at most `n` times -/
+def iterWhile {σ : Type} (c : σ → Bool) (step : σ → σ) : Nat → σ → σ
+  | 0, st => st
+  | n + 1, st => if c st then iterWhile c step n (step st) else st
+
+/-- a translated `while` (a `for` over a bound with `break`, its body ignoring the counter): at most as many rounds as the bound -/
+theorem forIn_except_while {σ : Type} (l : List α) (st : σ) (f : α → σ → Except PyExc (ForInStep σ)) (c : σ → Bool) (step : σ → σ)
+    (hf : ∀ x st, f x st = .ok (if c st then ForInStep.yield (step st) else ForInStep.done st)) :
+    forIn l st f = .ok (iterWhile c step l.length st) := by
+  induction l generalizing st with
+  | nil => rfl
+  | cons x r ih =>
+    rw [List.forIn_cons, hf, List.length_cons, iterWhile]
+    cases c st
+    · rfl
+    · exact ih (step st)
+
+/-- a loop that rebuilds a list from its (changed) elements -/
+theorem foldl_append_map (l : List α) (f : α → β) (acc : List β) :
+    l.foldl (fun acc x => acc ++ [f x]) acc = acc ++ l.map f := by
+  induction l generalizing acc with
+  | nil => simp
+  | cons x r ih => rw [List.foldl_cons, ih]; simp
 
 /-- appending the selected, mapped elements -/
 theorem foldl_collect (l : List α) (p : α → Bool) (h : α → β) (acc : List β) :
